@@ -1001,6 +1001,20 @@ func (h *harness) verdict() error {
 				}
 			}
 			if !justified {
+				// A name that was transmitted budget+1 times and whose Data did reach the consumer:
+				// the Data may have arrived while no transmission was pending (after a time-out and
+				// before the next transmission -- a client may back off in between: legitimate
+				// variation C15-r3-3), in which case it is unsolicited and every transmission was in
+				// effect lost. The harness does not see the engine's pending table, so such a failure
+				// is accepted (and counted).
+				for _, r := range g.reqs {
+					if r.gotData && r.tx >= retryBudget+1 {
+						justified = true
+						h.cls["failed-after-budget+1-transmissions-of-a-name-whose-data-arrived-at-some-point"] = true
+					}
+				}
+			}
+			if !justified {
 				return fmt.Errorf("%s: completed with error %q although no requested packet was lost beyond the retry budget (every Interest name the consumer sent %d times got its Data, or was sent fewer times); starved names: %s", what, gerr, retryBudget+1, reqList(starved))
 			}
 			if exp != nil && !bytes.HasPrefix(exp.content, got) {
